@@ -61,7 +61,18 @@ func (p Polygon) op(p2 Polygonal, op polyclip.Op) Polygon {
 	for _, pp2x := range p2.Polygons() {
 		pp2 = append(pp2, pp2x.toPolyClip()...)
 	}
-	return polyClipToPolygon(pp.Construct(op, pp2))
+	return polyClipToPolygon(pp.Construct(clipperOp(op, pp, pp2), pp2))
+}
+
+// clipperOp returns the operation to request from the clipper. The clipper
+// returns nothing for the XOR of operands one of which is empty or whose
+// bounding boxes do not overlap; the XOR of such operands is their union.
+func clipperOp(op polyclip.Op, pp, pp2 polyclip.Polygon) polyclip.Op {
+	if op == polyclip.XOR && (len(pp) == 0 || len(pp2) == 0 ||
+		!pp.BoundingBox().Overlaps(pp2.BoundingBox())) {
+		return polyclip.UNION
+	}
+	return op
 }
 
 func (p Polygon) toPolyClip() polyclip.Polygon {
